@@ -17,16 +17,16 @@ var propC11 = &pProp{
 	bias:   specBias{nullableLoops: 0, leftRec: 15, lrDirect: true, states: 40, preds: 70, actions: 90, throws: 15, optimized: 35, display: 40, unicode: 40},
 	tier: func(tier string) pParams {
 		if tier == "thorough" {
-			return pParams{grammars: 400, inputs: 8, optSets: 3, extra: 40}
+			return pParams{batches: 8, grammars: 400, inputs: 8, optSets: 3, extra: 40}
 		}
-		return pParams{grammars: 48, inputs: 4, optSets: 2, extra: 12}
+		return pParams{grammars: 96, inputs: 4, optSets: 2, extra: 12}
 	},
 	accept: func(gp *genParser) bool {
 		return gp.G.HasKind(gen.Action) || gp.G.HasKind(gen.AndCode) || gp.G.HasKind(gen.NotCode) || gp.G.HasKind(gen.State)
 	},
 	mkReqs: func(r *rng, gp *genParser, p pParams) []*parsersim.Request {
 		var reqs []*parsersim.Request
-		for ii, in := range drawInputs(r, gp.G, p.inputs, 20) {
+		for ii, in := range drawInputs(r, gp.G, p.inputs, 36) {
 			for k := 0; k < p.optSets; k++ {
 				o := drawOpts(r, gp, 30, 25)
 				o.AllowInvalidUTF8 = false
